@@ -35,6 +35,7 @@ class SimLoop(asyncio.BaseEventLoop):
         self.on_step: Optional[Callable[["SimLoop"], None]] = None
         self.timer_jumps = 0
         self.nontrivial_choices = 0
+        self.executor_jobs = 0
         self.set_exception_handler(lambda _loop, _ctx: None)
 
     # --- clock
@@ -47,6 +48,23 @@ class SimLoop(asyncio.BaseEventLoop):
 
     def _process_events(self, event_list: Any) -> None:  # pragma: no cover
         return None
+
+    # --- no real worker threads: a job handed to an executor (e.g. json.load of a stream moved off
+    # the loop) runs to completion here; its result arrives through an ordinary ready handle, so the
+    # seeded scheduler still decides when the awaiting task resumes.
+    def run_in_executor(self, executor: Any, func: Any, *args: Any) -> Any:
+        self._check_closed()
+        self.executor_jobs += 1
+        fut = self.create_future()
+        try:
+            result = func(*args)
+        except (SystemExit, KeyboardInterrupt):
+            raise
+        except BaseException as e:  # noqa: BLE001
+            self.call_soon(_set_exc_unless_done, fut, e)
+        else:
+            self.call_soon(_set_res_unless_done, fut, result)
+        return fut
 
     def _run_once(self) -> None:
         sched = self._scheduled
@@ -90,6 +108,16 @@ class SimLoop(asyncio.BaseEventLoop):
             return
         handle._run()
         handle = None  # type: ignore[assignment]
+
+
+def _set_res_unless_done(fut: Any, result: Any) -> None:
+    if not fut.done():
+        fut.set_result(result)
+
+
+def _set_exc_unless_done(fut: Any, exc: BaseException) -> None:
+    if not fut.done():
+        fut.set_exception(exc)
 
 
 def run_sim(loop: SimLoop, main: Any) -> Any:
